@@ -97,6 +97,13 @@ def rule_r3(chk, db, conf):
                 s3 = flow.backward(prep, m["tmp_path"], at=bi)
                 ok = bool({c_ for c_, _, _ in s2.calls} & {c_ for c_, _, _ in s3.calls})
             chk.verdict(ok, "R3", "writer-is-temp-file", prep.loc(bi), "the FileWriter's writer is not a file created at its tmp_path")
+            # no cancellation point between creating the file and arming its cleanup: the created file is not the output of an awaited future
+            awaited = [cb for cb, t, _ in sl.calls if callee_def(t).endswith("future::Future::poll") or callee_def(t).endswith("IntoFuture::into_future")]
+            yields = [x for x in prep.live_blocks() if prep.blocks[x]["term"]["k"] == "yield" and creates and
+                      any(flow.can_reach(prep, cb, x) for cb, _ in creates) and flow.can_reach(prep, x, bi)]
+            chk.verdict(bool(creates) and not awaited and not yields, "R3", "create-then-arm-without-await", prep.loc((awaited or yields or [bi])[0]),
+                        "the temp file is created by an awaited operation before the FileWriter (whose Drop removes it) exists: a request future dropped "
+                        "at that await leaves the file behind")
     object_fns = {n for n in conf if short(n) in ("get_object_path", "resolve_upload_part_path")}
     for b, bi, t, idxs in fscore.effects(db):
         nm = short(callee_def(t))
